@@ -193,7 +193,7 @@ func (r *ref) onInterest(in *inst, o *iOp, nonce uint32, life time.Duration, tok
 	}
 	// upstream transmissions reveal the entry token
 	for _, s := range intSends {
-		if th, t, ok := fwsim.IssuedToken(s.PitToken); ok && th == 0 {
+		if th, t, ok := fwsim.IssuedToken(s.PitToken); ok && int(th) == in.sim.ThreadID() {
 			r.issued[t] = k
 			e := r.pend[k]
 			if e == nil {
